@@ -274,7 +274,7 @@ def init {σ : Type} (src : σ) (windowBits inputBufferSize : Nat) (fill : UInt8
   let f16 := fill.toNat * 257
   some {
     src := src
-    window := Array.replicate windowSize fill
+    window := Array.replicate windowSize 0      -- `memset(qtm->window, 0, window_size)` (since 97e13b8)
     windowSize := windowSize
     windowPosn := 0
     frameTodo := qtmFRAME_SIZE
